@@ -896,13 +896,14 @@ def run_batch(seed, batch, tier, scratch):
 
 def evidence_meta(tier):
   return {
-      'rule': ('L1: a workload is 1-3 groups of rows for ArgMin/ArgMax (with limit None, 1..n+5; values distinct, '
+      'rule': ('L1: a workload is 1-3 groups of rows for ArgMin/ArgMax (with limit None, 1..n+5; values distinct - except that a quarter of the groups repeat some rows exactly - '
                'int/float/str), DistinctListAgg (Set) and ArrayConcatAgg (with nulls); it is fed to the real UDF '
                'objects in every permutation when one group has <=5 rows (<=6 thorough), else in 12 (40) seeded '
                'permutations, the steps of several groups interleaved and finalize() called in a seeded order. '
-               'L2: a table of 1-10 rows (k, a, v, w) with distinct v in three physical orders (shuffled, ascending, '
+               'L2: a table of 1-10 rows (k, a, v, w) with distinct v (and, in a quarter of the tables, exact duplicate rows) in three physical orders (shuffled, ascending, '
                'descending by value) x optional index x table/fact-rule mode, 2-4 aggregating rules from '
-               '{Sum, Min, Max, Avg, Count, List, Set, ArgMin, ArgMax, ArgMinK, ArgMaxK, Array} and 0-8 scalar cells, '
+               '{Sum, Min, Max, Avg, Count, List, Set, ArgMin, ArgMax, ArgMinK, ArgMaxK, Array, combine expressions, several aggregates in one head, literal-key rules over possibly empty selections} and 0-8 scalar cells '
+               '(every scalar built-in of the property over small int/string/list domains incl. the empty list, zero, negative numbers, non-ASCII and backslash strings; random arithmetic expression trees; membership as a condition and as a value; compositions of built-ins), '
                'compiled and run on SQLite. A run is one (workload, arrival order) execution. Non-trivial = at least '
                '3 rows reach an aggregate; distinct = SHA-256 of (rows, order, interleaving).'),
       'states_measure': 'distinct (aggregate, row multiset, arrival order, interleaving) tuples (L1) and (table, physical order, index, program) tuples (L2)',
